@@ -731,6 +731,9 @@ func runC06(args []string) error {
 		if len(in.Ops) == 1 && in.Ops[0] == "rejected-after-exec" {
 			return c06RunH6(co, in)
 		}
+		if len(in.Ops) > 0 && strings.HasPrefix(in.Ops[0], "cms") {
+			return c06RunConfl(co, c06StaleIn{Cfg: in.Cfg, Blocks: in.Blocks, Ops: in.Ops})
+		}
 		if len(in.Ops) > 0 && strings.Count(in.Ops[0], "/") == 2 {
 			return c06RunStale(co, c06StaleIn{Cfg: in.Cfg, Blocks: in.Blocks, Ops: in.Ops})
 		}
@@ -765,6 +768,15 @@ func runC06(args []string) error {
 			st := c06Input{Cfg: in.Cfg, Blocks: in.Blocks, Ops: c06StaleOps()}
 			st.Cfg.GC = false
 			if err := run(st); err != nil {
+				return fmt.Errorf("state %d: %w", i, err)
+			}
+		}
+		if i%2 == 1 {
+			// on-chain Conflicts backed by any signer of the offered transaction: position, distance, pooled/fresh
+			cf := c06Input{Cfg: in.Cfg, Blocks: in.Blocks, Ops: c06CmsOps()}
+			cf.Cfg.GC = false
+			cf.Cfg.MTB = c06MTB
+			if err := run(cf); err != nil {
 				return fmt.Errorf("state %d: %w", i, err)
 			}
 		}
